@@ -1,7 +1,6 @@
 //! Application model + executor: drives the real minimq `Session`/`Connection` through its public
 //! API, decides cancellation, checks operation results and handle statuses after every step.
 
-use crate::broker;
 use crate::clock::{self, US_PER_MS, US_PER_S};
 use crate::codec::{self, PVal, Packet, Prop, SubFilter};
 use crate::io::SimIo;
@@ -9,7 +8,7 @@ use crate::world::{self, with, Accept, Blocked, Delivered, Expect, Phase, Profil
 use core::future::Future;
 use core::task::{Context, Poll, Waker};
 use minimq::{
-    Buffers, ConfigBuilder, ConnectEvent, Connection, Disconnect, Error, PeerError, Property, PubError, Publication, QoS,
+    ConnectEvent, Connection, Disconnect, Error, PeerError, Property, PubError, Publication, QoS,
     ReasonCode, ResourceError, RetainHandling, Session, SubscriptionOptions, TopicFilter, Will,
 };
 
@@ -527,6 +526,9 @@ fn settle_req(w: &mut World, ri: usize, res: &Res, handle: Option<minimq::Op>) {
         }
         other => {
             // local refusal
+            if *other == Res::PacketTooLarge {
+                *w.stats.probes.entry("refused_packet_too_large").or_insert(0) += 1;
+            }
             if r.accept != Accept::Accepted {
                 r.accept = Accept::NotAccepted;
                 r.refused_with = Some(other.name());
@@ -699,6 +701,7 @@ pub fn check_handles(session: &Session<'_>) {
             return;
         }
         let mut bad: Option<(u32, u8, u8, &'static str)> = None;
+        let mut alias: Option<u32> = None;
         for r in w.reqs.iter() {
             let Some(h) = &r.handle else { continue };
             if r.ambiguous {
@@ -713,6 +716,21 @@ pub fn check_handles(session: &Session<'_>) {
             };
             let got = status_of(session, h);
             if got != want {
+                // a stale handle whose identifier has been handed out again (after the 16-bit
+                // counter wrapped) is a separate, known limitation
+                if want == 2 && got == 1 {
+                    let aliased = w.reqs.iter().any(|o| o.tag != r.tag && o.epoch == r.epoch && !o.invalidated && o.id == r.id && o.id.is_some() && o.accept != Accept::NotAccepted && !matches!(o.phase, Phase::Done(_)));
+                    if aliased {
+                        alias = Some(r.tag);
+                        continue;
+                    }
+                    // a request that was enqueued but never seen on the wire has an identifier
+                    // the ledger does not know yet: it may be the reused one
+                    let unknown = w.reqs.iter().any(|o| o.epoch == r.epoch && !o.invalidated && o.id.is_none() && o.qos > 0 && o.accept != Accept::NotAccepted && !matches!(o.phase, Phase::Done(_)));
+                    if unknown && w.cfg.id_burn != 0 {
+                        continue;
+                    }
+                }
                 let kind = match (r.kind, r.qos) {
                     (ReqKind::Pub, 1) => "pub1",
                     (ReqKind::Pub, _) => "pub2",
@@ -722,6 +740,13 @@ pub fn check_handles(session: &Session<'_>) {
                 bad = Some((r.tag, got, want, kind));
                 break;
             }
+        }
+        if let Some(tag) = alias {
+            w.violate(
+                "C18",
+                "completed-handle-pending-again/identifier-reused-after-wrap".into(),
+                format!("handle of completed request tag {tag} reports pending again because its identifier was handed to a new operation"),
+            );
         }
         if let Some((tag, got, want, kind)) = bad {
             let n = |v: u8| match v {
@@ -1190,7 +1215,7 @@ pub fn do_disconnect(conn: &mut Conn<'_, '_>, spec: &DiscSpec) -> Res {
         if res == Res::Cancelled {
             w.conns[cur].disconnect_cancelled = true;
         }
-        if res == Res::Ok && was_live && !w.conns[cur].saw_disconnect {
+        if res == Res::Ok && was_live && !w.conns[cur].saw_disconnect && !w.conns[cur].wire_broken {
             let c = &w.conns[cur];
             let inside = if c.parsed != c.wire.len() { codec::type_name_of(c.wire[c.parsed] >> 4) } else { "none" };
             w.violate(
